@@ -337,3 +337,43 @@ def find_loops(s, m, start, end):
         c = match_close(s, m, o)
         loops.append(Loop(kw, p, o, c))
     return loops
+
+
+BLOCKKW = re.compile(r'(if|for|while|loop|match|unsafe)\b')
+
+
+def split_statements(s, m, start, end):
+    """Top-level statements of a block body [start,end): list of (stmt_start, stmt_end) offsets.
+    A statement ends at a `;` at depth 0, or at the `}` that closes a block-like expression statement
+    (if/for/while/loop/match/{...}) unless `else` follows.  The trailing expression (no `;`) is the last entry."""
+    res = []
+    i = skip_ws(s, m, start, end)
+    while i < end:
+        st = i
+        mm = BLOCKKW.match(s, i)
+        blocklike = bool(mm) or s[i] == '{'
+        j = i
+        while j < end:
+            if m[j]:
+                c = s[j]
+                if c == ';':
+                    j += 1
+                    break
+                if c in '([':
+                    j = match_close(s, m, j) + 1
+                    continue
+                if c == '{':
+                    j = match_close(s, m, j) + 1
+                    if blocklike:
+                        k = skip_ws(s, m, j, end)
+                        if s.startswith('else', k) and not (s[k + 4].isalnum() or s[k + 4] == '_'):
+                            j = k + 4
+                            continue
+                        if k < end and s[k] == ';':
+                            j = k + 1
+                        break
+                    continue
+            j += 1
+        res.append((st, j))
+        i = skip_ws(s, m, j, end)
+    return res
